@@ -81,6 +81,17 @@ def observe_one(b):
                     out, ins = _out(lambda: mn.dis(bs))
                     offs.append({'o': o, 'n': len(stream), 'suf': suf, 'out': out, 'kind': kind,
                                  'ioff': int(ins.offset) if ins is not None else -1, 'after': int(bs.offset)})
+            # every truncation once more through each stream class, at a stream offset, with NOTHING after the cut: the data
+            # ends inside the instruction (inside a multi-byte field, too) - expected: the outcome of decoding the cut string
+            for k in range(1, len(b)):
+                o = OFFS[k % len(OFFS)]
+                stream = b'\xcc' * o + bytes(b[:k])
+                # (the stream class rotates with the cut and the string: each class sees every cut of a third of the strings)
+                for kind in (('file', 'virt', 'str')[(k + len(b) + b[-1]) % 3],):
+                    bs = bin_stream(stream if kind == 'str' else io.BytesIO(stream) if kind == 'file' else _Virt(stream), o)
+                    out, ins = _out(lambda: mn.dis(bs))
+                    offs.append({'o': o, 'n': len(stream), 'suf': r['truncs'][k - 1], 'out': out, 'kind': kind, 'cut': k,
+                                 'ioff': int(ins.offset) if ins is not None else -1, 'after': int(bs.offset)})
             r['offs'] = offs
         finally:
             ia32lib.disarm()
@@ -132,7 +143,7 @@ def culprit(r, c):
         return r['junk'][j - 1], bytes(r['b']) + JUNK[j - 1]
     x = r['offs'][j - 1]
     bad = x['out'] if x['out']['k'] not in ('absent', 'instr') or not (x['out']['k'] != 'instr' or x['out']['both']) else x['suf']
-    return bad, bytes(r['b']) + FILL
+    return bad, (bytes(r['b'][:x['cut']]) if x.get('cut') else bytes(r['b']) + FILL)
 
 
 def run_decoder_part(tier, chk):
